@@ -333,6 +333,15 @@ def r17(src, counts):
     return ''.join(out)
 
 
+def r18(src, counts):
+    """`return self.f(args);` -> `let return_value = self.f(args); return return_value;` so that ghost text can
+    stand between the call and the return (same evaluation order, same value)."""
+    def rep(mo):
+        counts['R18.return_call'] += 1
+        return '%slet return_value = %s;\n%sreturn return_value;' % (mo.group(1), mo.group(2), mo.group(1))
+    return re.sub(r'^(\s*)return (self\.\w+\([^;\n]*\));', rep, src, flags=re.M)
+
+
 def r13(src, counts):
     """`impl<W> Write for Stream<W>` becomes an inherent impl (`pub fn write`, `pub fn flush`): the
     methods keep their bodies, only the trait-ness is dropped, so that their contracts can speak about
@@ -417,6 +426,6 @@ def extract_file(path, modpath):
     """Return (rewritten_source, counts)."""
     counts = Counter()
     src = open(path).read()
-    for rule in (r1, r2, r3, r4, r5, r6, r7, r8, r9, r10, r11, r12, r13, r16, r17, r15):
+    for rule in (r1, r2, r3, r4, r5, r6, r7, r8, r9, r10, r11, r12, r13, r16, r17, r18, r15):
         src = rule(src, counts)
     return src, counts
